@@ -1008,6 +1008,7 @@ def oracle_build_only(m: onnx.ModelProto, seed: int) -> list[tuple[str, str]]:
 
 
 HOSTILE_HIST: dict[str, int] = {}
+ESCALATE = False
 
 
 def oracle_hostile_names(m: onnx.ModelProto, seed: int, variants=None) -> list[tuple[str, str]]:
@@ -1349,7 +1350,24 @@ def run(ck: core.Check):
 
     rng = ck.rng
     n_hand, n_spox = ck.pick((220, 80), (1100, 380))
-    n_vbody = ck.pick(70, 500)
+    n_vbody = ck.pick(70, 300)
+    # tie G (escalation, not an obligation): the functions the model transcribes changed since the baseline was
+    # taken -> search the version family three times as wide and with every composition form
+    changed = []
+    try:
+        import pathlib
+
+        base = json.loads((pathlib.Path(__file__).resolve().parent.parent / "c08_source_baseline.json").read_text())
+        now = facts.get("sourceHashes") or {}
+        changed = sorted(k for k in set(base) | set(now) if base.get(k) != now.get(k))
+    except Exception as e:  # noqa: BLE001
+        changed = [f"baseline unreadable: {type(e).__name__}"]
+    ck.cov["covered_sources_changed"] = changed
+    global ESCALATE
+    ESCALATE = bool(changed)
+    if changed:
+        ck.notes.append(f"covered source changed since the baseline ({', '.join(changed)}): version-family counts escalated")
+        n_vbody *= 3
     models, snaps, dropped = make_models(ck, n_hand, n_spox, n_vbody)
     ck.log(f"{len(models)} models generated ({dropped} invalid candidates dropped)")
     feature_hist: dict[str, int] = {}
@@ -1581,7 +1599,7 @@ def _oracle_phase(ck, models, snaps, rng, scope_obs):
         family = meta["kind"] == "vbody" or "version-family" in meta["features"]
         if family:
             # the version family: always next to operators of a later opset, in several compositions and histories
-            forms = (list(FORMS) + list(MIXED_FORMS)) if (ck.thorough or meta["kind"] == "corner") else (
+            forms = (list(FORMS) + list(MIXED_FORMS)) if (ck.thorough or ESCALATE or meta["kind"] == "corner") else (
                 ["once", "mixed+once"] + rng.sample(MIXED_FORMS[1:], 2) + rng.sample(["mixed-opset", "history", "name-history", "loop-body", "if-body"], 1))
         else:
             forms = list(FORMS) if (ck.thorough or meta["kind"] == "corner") else ["once"] + rng.sample(FORMS[1:], 3)
